@@ -76,6 +76,10 @@ func init() {
 			}
 			emit(1604, TB(nil))
 			emit(1604, TB([]byte{}))
+			// one receiver over several payloads, rejected ones in between
+			emit(1605, TList{TB(nil), TB([]byte{1})})
+			emit(1605, TList{TB([]byte{}), TB([]byte{3, 4}), TB(nil), TB([]byte{})})
+			emit(1605, TList{TB([]byte{0x78, 9}), TB([]byte{}), TB([]byte{0xFF})})
 			emit(1604, TB([]byte{0}))
 			// OpusPacket.Unmarshal: every one-byte payload (all 256 TOC bytes) and every TOC with a
 			// second byte from a boundary alphabet
@@ -95,6 +99,21 @@ func init() {
 			for i := 0; i < n; i++ {
 				c := r.Fork(uint64(i))
 				op := c.Pick(1601, 1601, 1602, 1602, 1603, 1604)
+				if op == 1604 && c.Intn(3) == 0 {
+					seq := TList{}
+					for k, kn := 0, 2+c.Intn(4); k < kn; k++ {
+						switch c.Intn(4) {
+						case 0:
+							seq = append(seq, TB(nil))
+						case 1:
+							seq = append(seq, TB([]byte{}))
+						default:
+							seq = append(seq, TB(c.Bytes(1+c.Intn(6))))
+						}
+					}
+					emit(1605, seq)
+					continue
+				}
 				if op == 1604 {
 					var b []byte
 					switch c.Intn(6) {
@@ -145,6 +164,38 @@ func init() {
 		},
 		Run: func(op int, toks []Tok) Outcome {
 			var o Outcome
+			if op == 1605 {
+				// one OpusPacket receiver over a sequence of payloads; head/tail queried after every call
+				d := &codecs.OpusPacket{}
+				res := VList{}
+				for i, t := range tokList(toks[0]) {
+					in := tokBytes(t)
+					g, buf := newGuarded(in)
+					out, err := d.Unmarshal(buf)
+					head, tail0, tail1 := d.IsPartitionHead(buf), d.IsPartitionTail(false, buf), d.IsPartitionTail(true, buf)
+					probe := []byte{0x78, 1, 2}
+					headP, tailP := d.IsPartitionHead(probe), d.IsPartitionTail(false, probe)
+					if err != nil {
+						res = append(res, L(errV(err), Bool(head), Bool(tail0)))
+					} else {
+						res = append(res, L(OkV(L(Bool(!overlaps(out, g.whole)), B(out))), Bool(head), Bool(tail0)))
+					}
+					switch {
+					case (in == nil || len(in) == 0) != (err != nil):
+						o.Fail = fmt.Sprintf("step %d: nil/empty must be rejected and only those", i)
+					case err == nil && !bytes.Equal(out, in):
+						o.Fail = fmt.Sprintf("step %d: payload not returned unchanged", i)
+					case !head || !tail0 || !tail1 || !headP || !tailP:
+						o.Fail = fmt.Sprintf("step %d: partition head/tail not reported (head=%v tail=%v/%v, on another payload %v/%v)", i, head, tail0, tail1, headP, tailP)
+					}
+					if !g.intact(in) {
+						o.Fail = "input modified"
+					}
+				}
+				o.Impl, o.Nontrivial = res, true
+				o.Tags = []string{"opus-receiver-sequence"}
+				return o
+			}
 			if op == 1604 {
 				in := tokBytes(toks[0])
 				g, buf := newGuarded(in)
